@@ -17,13 +17,15 @@ Open Scope Z_scope.
 (* one step of a chain: the transform, the index of its operand among the tensors produced so
    far (0 = the initial tensor), and the points the result must store (every point = one
    coordinate per rank; rendered by the generator from the operand's points) *)
-Record cstep := mkS { s_src : nat; s_x : xform; s_data : list (list sh) }.
+(* s_act: the active ranges of the result's fibers are observed (the tensor has a declared shape
+   and no split / linear-style flatten among its ancestors, which give fibers ranges of their own) *)
+Record cstep := mkS { s_src : nat; s_x : xform; s_data : list (list sh); s_act : bool }.
 
 Inductive c14_case :=
 | KX (t : tattrs) (x : xform)
 | KB (ids : list rid) (shape : option (list Z)) (d : Z) (t : atree)
 | KL (op : lop) (ra rb : rawf)
-| KC (t0 : tattrs) (data0 : list (list sh)) (steps : list cstep).
+| KC (t0 : tattrs) (data0 : list (list sh)) (act0 : bool) (steps : list cstep).
 
 (* ------------------------------------------------------------------ model observations *)
 Definition V_dflt (leaf : bool) (d : Z) : V := if leaf then VL [VZ d] else VL [].
@@ -59,21 +61,39 @@ Fixpoint chain_run (F : xform -> tattrs -> option tattrs) (acc : list (option ta
     chain_run F (acc ++ [r]) rest
   end.
 
-(* per tensor: attributes; stored points; "leaves sit exactly at the last rank and every rank
-   lists exactly the fibers of its level" *)
-Definition V_chain_tensor (ad : option tattrs * list (list sh)) : V :=
-  VL [V_otattrs (fst ad); Vl (Vl V_sh) (snd ad); VZ 1].
+(* the active range of a fiber of a rank with shape entry s: [0-like s, s) with the structure of
+   the coordinates — concatenated for a tuple-style flatten, nested for pair style, exactly as
+   the shape entry is *)
+Fixpoint zero_of (s : sh) : sh :=
+  match s with SZ _ => SZ 0 | ST l => ST (map zero_of l) end.
+
+(* per rank: the set of distinct active ranges its fibers report *)
+Definition V_ranges (a : option tattrs) (act : bool) : V :=
+  match a, act with
+  | Some t, true =>
+    match t_shape t with
+    | Some s => Vl (fun x => VL [VL [V_sh (zero_of x); V_sh x]]) s
+    | None => VL []
+    end
+  | _, _ => VL []
+  end.
+
+(* per tensor: attributes; stored points; "leaves sit exactly at the last rank, every rank lists
+   exactly the fibers of its level, and for every fiber iterActive() = iterOccupancy()"; ranges *)
+Definition V_chain_tensor (x : (option tattrs * list (list sh)) * bool) : V :=
+  VL [V_otattrs (fst (fst x)); Vl (Vl V_sh) (snd (fst x)); VZ 1; V_ranges (fst (fst x)) (snd x)].
 
 Definition kc_obs (F : xform -> tattrs -> option tattrs) (t0 : tattrs) (data0 : list (list sh))
-           (steps : list cstep) : V :=
-  Vl V_chain_tensor (combine (chain_run F [Some t0] steps) (data0 :: map s_data steps)).
+           (act0 : bool) (steps : list cstep) : V :=
+  Vl V_chain_tensor (combine (combine (chain_run F [Some t0] steps) (data0 :: map s_data steps))
+                             (act0 :: map s_act steps)).
 
 Definition c14_model (c : c14_case) : V :=
   match c with
   | KX t x => V_otattrs (xform_attrs x t)
   | KB ids shape d t => build_obs ids shape d t
   | KL op ra rb => V_fattrs (lazy_attrs op (raw_attrs ra) (raw_attrs rb))
-  | KC t0 data0 steps => kc_obs xform_attrs t0 data0 steps
+  | KC t0 data0 act0 steps => kc_obs xform_attrs t0 data0 act0 steps
   end.
 
 (* ------------------------------------------------------------------ KX: the re-arrangements *)
@@ -398,7 +418,7 @@ Definition c14_wf (c : c14_case) : bool :=
   | KX t x => wf_kx t x
   | KB ids shape d t => wf_kb ids shape d t
   | KL op ra rb => wf_kl op (raw_attrs ra) (raw_attrs rb)
-  | KC t0 data0 steps => wf_kc t0 data0 steps
+  | KC t0 data0 act0 steps => wf_kc t0 data0 steps
   end.
 
 Definition c14_holds (c : c14_case) (o : V) : bool :=
@@ -407,7 +427,7 @@ Definition c14_holds (c : c14_case) (o : V) : bool :=
   | KX t x => V_eqb (V_otattrs (xform_spec x t)) o
   | KB ids shape d t => holds_kb ids shape d t o
   | KL op ra rb => holds_kl op (raw_attrs ra) (raw_attrs rb) o
-  | KC t0 data0 steps => V_eqb (kc_obs xform_spec t0 data0 steps) o
+  | KC t0 data0 act0 steps => V_eqb (kc_obs xform_spec t0 data0 act0 steps) o
   end.
 
 Definition c14_checker : checker c14_case :=
